@@ -958,6 +958,78 @@ theorem C13_refused_changes_nothing (n : Node) (name : String) (r : SvcReq) (i :
       · rw [if_neg hc]; rfl
 
 
+/-- **A refused application request changes nothing** (node level; the counterpart of `C13_refused_changes_nothing`): whenever
+`[…,'application',name,r]` does not answer `success` — node not ON, nothing routed, wrong state, `fix` with nothing to
+fix, the generic `execute` on an INSTALLING application — the events it delivers leave every application object exactly as
+it was.  (`unmodelled` = the class registers its own `execute`: that operation is outside this model and excluded.) -/
+theorem C13_application_refused_changes_nothing (n : Node) (name : String) (r : AppReq) (i : AppInst)
+    (hi : n.findApp i.m.uid = some i) (h : n.appReqOut name r ≠ .status .success) (hx : n.appReqOut name r ≠ .unmodelled) :
+    i.a.applyAll (n.appEvs (.appReq name r) i) = i.a := by
+  simp only [Node.appEvs]
+  cases hon : n.isOn
+  · rfl
+  · cases hd : dget name n.appRoutes with
+    | none => rfl
+    | some u =>
+      simp only [if_true]
+      by_cases hc : u = i.m.uid ∧ i.m.cls.baseRoutes = true ∧ (r = .execute → i.m.cls.genericExecute = true) ∧ r.passes i.a.st = true
+      · rw [if_pos hc]
+        obtain ⟨hu, hb, hg, hp⟩ := hc
+        have hout : n.appReqOut name r = .status (i.a.request r).2 := by
+          unfold Node.appReqOut
+          simp only [hon, Bool.not_true, Bool.false_eq_true, if_false, hd, hu, hi, hb]
+          by_cases hr : r = .execute
+          · simp [hr, hg hr]
+          · simp [hr]
+        have hne : (i.a.request r).2 ≠ .success := fun hh => h (by rw [hout, hh])
+        have := C13_application_refused_unchanged i.a r hne
+        simp only [App.request, hp, if_true] at this
+        cases r <;> simpa [App.applyAll] using this
+      · rw [if_neg hc]; rfl
+
+/-- the heap holds one object per uid (true of every reachable node: uids are handed out by a counter) -/
+def HeapDistinct (n : Node) : Prop :=
+  (∀ i ∈ n.svcs, n.findSvc i.m.uid = some i) ∧ (∀ i ∈ n.apps, n.findApp i.m.uid = some i)
+
+theorem map_id_of_forall {α} (l : List α) (f : α → α) (h : ∀ x ∈ l, f x = x) : l.map f = l := by
+  induction l with
+  | nil => rfl
+  | cons a t ih =>
+    simp only [List.map_cons]
+    rw [h a (by simp), ih (fun x hx => h x (by simp [hx]))]
+
+/-- **A refused request leaves the WHOLE node as it was** — every service, every application, every registry, the power
+state: for service requests and for application requests alike. -/
+theorem C13_refused_node_unchanged (n : Node) (hd : HeapDistinct n) (name : String) :
+    (∀ r : SvcReq, n.svcReqOut name r ≠ .status .success → (n.step (.svcReq name r)).1 = n) ∧
+    (∀ r : AppReq, n.appReqOut name r ≠ .status .success → n.appReqOut name r ≠ .unmodelled →
+      (n.step (.appReq name r)).1 = n) := by
+  constructor
+  · intro r h
+    simp only [Node.step, Node.deliverEvs]
+    have h1 : n.svcs.map (fun i => { i with s := i.s.applyAll (n.svcEvs (.svcReq name r) i) }) = n.svcs :=
+      map_id_of_forall _ _ (fun i hi => by rw [C13_refused_changes_nothing n name r i (hd.1 i hi) h])
+    have h2 : n.apps.map (fun i => { i with a := i.a.applyAll (n.appEvs (.svcReq name r) i) }) = n.apps :=
+      map_id_of_forall _ _ (fun i _ => by
+        rw [appEvs_nil_of_quiet n _ i (by intros; simp) (by intros; simp) rfl rfl]; rfl)
+    rw [h1, h2]
+  · intro r h hx
+    simp only [Node.step, Node.deliverEvs]
+    have h1 : n.svcs.map (fun i => { i with s := i.s.applyAll (n.svcEvs (.appReq name r) i) }) = n.svcs :=
+      map_id_of_forall _ _ (fun i _ => by
+        rw [svcEvs_nil_of_quiet n _ i (by intros; simp) (by intros; simp) rfl rfl]; rfl)
+    have h2 : n.apps.map (fun i => { i with a := i.a.applyAll (n.appEvs (.appReq name r) i) }) = n.apps :=
+      map_id_of_forall _ _ (fun i hi => by rw [C13_application_refused_changes_nothing n name r i (hd.2 i hi) h hx])
+    rw [h1, h2]
+
+/-- non-vacuity: an INSTALLING application refuses `close` and the generic `execute`, a CLOSED one refuses `scan`; the node is
+unchanged each time -/
+example :
+    let c : Cls := { name := "database-client", port := 5432, proto := 1 }
+    let n := ({} : Node).run [.reqInstall "database-client" (some (c, []))]
+    n.appReqOut "database-client" .close = .status .failure ∧ n.appReqOut "database-client" .execute = .status .failure ∧
+    ((n.step (.appReq "database-client" .execute)).1.findApp 0).map (·.a.st) = some .installing := by decide
+
 /-- non-vacuity: a RUNNING service routed on an ON node accepts `pause`, refuses `start` -/
 example :
     let n : Node := ({} : Node).registerSvc { name := "dns-client", port := 53, proto := 1 } [] .good 2
